@@ -14,11 +14,15 @@ import (
 	"net/url"
 	"os"
 	"os/exec"
+	"reflect"
+	"runtime"
 	"sort"
 	"strconv"
 	"strings"
 	"sync"
+	"sync/atomic"
 	"time"
+	"unsafe"
 
 	"github.com/fatedier/frp/pkg/config/types"
 	"github.com/fatedier/frp/pkg/util/tcpmux"
@@ -58,6 +62,21 @@ import (
 //	lookup <m> <g> <key> <p1..p4> <grab>            => parked | busy | nogate      (join goroutine parked between lookup and join)
 //	enter <m>                                       => result of the parked join | nopend
 //	sched <kind> <op;op;…>   (inner tokens joined by ',')   => r1;r2;…[;crash]     run in a SACRIFICIAL CHILD PROCESS
+//
+// Inside `sched` only — joins AND leaves as separately scheduled steps.  Every join / leave started this way
+// runs on a goroutine of its own ("thread"); an op returns when every thread has finished, is parked at a gate,
+// or is blocked on a mutex (goroutine state from runtime.Stack) — never on a timer:
+//
+//	hold <g>        the harness takes the GROUP lock of the object stored under g (reflect: ctl.groups[g].mu):
+//	                a leave is thereby paused after its table lookup, before its group edit   => held | nogroup | nofield | busy
+//	unhold          gives it back; returns when everything has settled again                   => -
+//	leaveA <m>      the leave of m, asynchronous          => - (finished) | waiting (blocked on a lock) | nomember
+//	leaveW <m>      its end                               => - | wedged | premature (a hold / a parked join is in the way) | noasync
+//	lookup …        as before; now also                   => waiting (blocked on a lock BEFORE the gate)
+//	enter <m>       as before; now                        => … | wedged | premature (hold active)
+//	wedged = the op's thread is not finished although no hold and no gate is left: nothing this process can still
+//	do will ever let it finish (all threads blocked on mutexes, or no progress for 2 s).  The child ends there.
+//	tcp: port token `@<m>` = the real port last reported to member m (the operator pins the port frps had chosen)
 const groupK = 10
 
 type groupMember struct {
@@ -83,9 +102,28 @@ type groupDial struct {
 }
 
 type groupPending struct {
-	m    string
-	gate chan struct{}
-	done chan string
+	m, g   string
+	gate   chan struct{}
+	done   chan string
+	atGate atomic.Bool // the join goroutine has reached the gate (set by the hook handler just before it blocks)
+	open   atomic.Bool // the gate has been opened (op `enter`)
+	th     *groupThread
+}
+
+// a join or leave running on a goroutine of its own
+type groupThread struct {
+	key  string // "J"+m | "L"+m
+	goid string
+	pd   *groupPending // joins: the gate they may be parked at
+	done chan struct{}
+	res  string
+}
+
+func (p *groupPending) parked() bool { return p.atGate.Load() && !p.open.Load() }
+
+type groupLocker interface {
+	TryLock() bool
+	Unlock()
 }
 
 type groupWorld struct {
@@ -108,6 +146,9 @@ type groupWorld struct {
 	grab    map[string]int           // proxy name -> port to bind at the acquire gate
 	parkedC chan string
 	dials   map[int]*groupDial
+	threads  map[string]*groupThread
+	hold     groupLocker    // group lock held by the harness (op `hold`)
+	lastPort map[string]int // tcp: member -> the real port its last accepted join reported
 }
 
 var groupW *groupWorld
@@ -143,9 +184,16 @@ func groupClose() {
 		return
 	}
 	verifhook.Set(nil)
+	if w.hold != nil {
+		w.hold.Unlock()
+		w.hold = nil
+	}
 	for _, p := range w.pending {
 		close(p.gate)
-		<-p.done
+		select {
+		case <-p.done:
+		case <-time.After(2 * time.Second):
+		}
 	}
 	for _, m := range w.members {
 		func() {
@@ -183,7 +231,8 @@ func groupReset(kind string) {
 	groupClose()
 	w := &groupWorld{kind: kind, members: map[string]*groupMember{}, pending: map[string]*groupPending{},
 		pendGrp: map[string]string{}, squats: map[string]io.Closer{}, armed: map[string]*groupPending{},
-		grab: map[string]int{}, parkedC: make(chan string, 16), dials: map[int]*groupDial{}}
+		grab: map[string]int{}, parkedC: make(chan string, 16), dials: map[int]*groupDial{},
+		threads: map[string]*groupThread{}, lastPort: map[string]int{}}
 	switch kind {
 	case "tcp":
 		w.base = groupPickBase()
@@ -221,10 +270,204 @@ func groupReset(kind string) {
 		delete(w.armed, key)
 		w.mu.Unlock()
 		if p != nil {
-			w.parkedC <- p.m
+			p.atGate.Store(true)
 			<-p.gate
 		}
 	})
+}
+
+// ---- threads: joins and leaves as separately scheduled steps
+
+func groupGoID() string {
+	buf := make([]byte, 64)
+	f := strings.Fields(string(buf[:runtime.Stack(buf, false)]))
+	if len(f) > 1 {
+		return f[1]
+	}
+	return "?"
+}
+
+// goroutine id -> wait state ("" = running / runnable / in a syscall)
+func groupGoStates() map[string]string {
+	buf := make([]byte, 1<<18)
+	n := runtime.Stack(buf, true)
+	for n == len(buf) {
+		buf = make([]byte, 2*len(buf))
+		n = runtime.Stack(buf, true)
+	}
+	m := map[string]string{}
+	for _, g := range strings.Split(string(buf[:n]), "\n\n") {
+		if !strings.HasPrefix(g, "goroutine ") {
+			continue
+		}
+		i, j := strings.Index(g, "["), strings.Index(g, "]")
+		if i < 0 || j < i {
+			continue
+		}
+		st := g[i+1 : j]
+		if k := strings.Index(st, ","); k >= 0 {
+			st = st[:k]
+		}
+		m[strings.Fields(g)[1]] = st
+	}
+	return m
+}
+
+func groupMutexWait(st string) bool {
+	return strings.HasPrefix(st, "sync.Mutex") || strings.HasPrefix(st, "sync.RWMutex") || st == "semacquire"
+}
+
+func (w *groupWorld) spawn(key string, pd *groupPending, body func() string) *groupThread {
+	t := &groupThread{key: key, pd: pd, done: make(chan struct{})}
+	ready := make(chan struct{})
+	go func() {
+		t.goid = groupGoID()
+		close(ready)
+		t.res = body()
+		close(t.done)
+	}()
+	<-ready
+	w.mu.Lock()
+	w.threads[key] = t
+	w.mu.Unlock()
+	return t
+}
+
+func (t *groupThread) finished() bool {
+	select {
+	case <-t.done:
+		return true
+	default:
+		return false
+	}
+}
+
+// allSettled: every thread has finished, is parked at its gate, or is blocked on a mutex — in ONE snapshot of the
+// goroutine states, so that no running thread is about to release what another one waits for
+func (w *groupWorld) allSettled() bool {
+	w.mu.Lock()
+	ts := make([]*groupThread, 0, len(w.threads))
+	for _, t := range w.threads {
+		ts = append(ts, t)
+	}
+	w.mu.Unlock()
+	var st map[string]string
+	for _, t := range ts {
+		if t.finished() || (t.pd != nil && t.pd.parked()) {
+			continue
+		}
+		if st == nil {
+			st = groupGoStates()
+		}
+		if !groupMutexWait(st[t.goid]) {
+			return false
+		}
+	}
+	return true
+}
+
+// waitSettled: done | gate | blocked | timeout — event-driven (polls the goroutine states every 200 µs), bounded by 2 s
+func (w *groupWorld) waitSettled(t *groupThread) string {
+	deadline := time.Now().Add(2 * time.Second)
+	for {
+		if t != nil && t.finished() {
+			return "done"
+		}
+		if t != nil && t.pd != nil && t.pd.parked() {
+			return "gate"
+		}
+		if w.allSettled() {
+			// confirm: a thread between two locks is "running" for an instant only; look twice
+			time.Sleep(300 * time.Microsecond)
+			if w.allSettled() {
+				if t != nil && t.finished() {
+					return "done"
+				}
+				if t != nil && t.pd != nil && t.pd.parked() {
+					return "gate"
+				}
+				return "blocked"
+			}
+		}
+		if time.Now().After(deadline) {
+			return "timeout"
+		}
+		time.Sleep(200 * time.Microsecond)
+	}
+}
+
+// the mutex of the group object stored under name g, reached by reflection (fields `groups` / `mu`)
+func (w *groupWorld) groupLock(g string) (groupLocker, string) {
+	var ctl any
+	switch w.kind {
+	case "tcp":
+		ctl = w.tcpCtl
+	case "http":
+		ctl = w.httpCtl
+	default:
+		ctl = w.muxCtl
+	}
+	gs := reflect.ValueOf(ctl).Elem().FieldByName("groups")
+	if !gs.IsValid() || gs.Kind() != reflect.Map {
+		return nil, "nofield"
+	}
+	gv := gs.MapIndex(reflect.ValueOf(g))
+	if !gv.IsValid() || gv.Kind() != reflect.Pointer || gv.IsNil() {
+		return nil, "nogroup"
+	}
+	mu := gv.Elem().FieldByName("mu")
+	if !mu.IsValid() || !mu.CanAddr() {
+		return nil, "nofield"
+	}
+	switch mu.Type().String() {
+	case "sync.Mutex":
+		return (*sync.Mutex)(unsafe.Pointer(mu.UnsafeAddr())), ""
+	case "sync.RWMutex":
+		return (*sync.RWMutex)(unsafe.Pointer(mu.UnsafeAddr())), ""
+	}
+	return nil, "nofield"
+}
+
+// is a hold or a gated join in the way of the threads that are still running?
+func (w *groupWorld) obstructed() bool {
+	w.mu.Lock()
+	defer w.mu.Unlock()
+	return w.hold != nil || len(w.pending) > 0
+}
+
+// the real leave of member mb (books already updated)
+func (w *groupWorld) realLeave(mb *groupMember) string {
+	if w.kind == "http" {
+		w.httpCtl.UnRegister(mb.name, mb.g, mb.route)
+		return "-"
+	}
+	mb.ln.Close()
+	// "live" ends when Close has returned AND the proxy's accept loop has seen it
+	if mb.done != nil {
+		select {
+		case <-mb.done:
+		case <-time.After(2 * time.Second):
+			return "loopalive"
+		}
+	}
+	return "-"
+}
+
+// books of a leave: the member is gone from the harness's list; its endpoint may have lost its last live member
+func (w *groupWorld) bookLeave(m string) *groupMember {
+	w.mu.Lock()
+	defer w.mu.Unlock()
+	mb := w.members[m]
+	delete(w.members, m)
+	if mb != nil && w.kind != "http" && len(w.membersAt(mb.key)) == 0 {
+		// the endpoint has no live member left: whatever is still waiting there must be closed by frps
+		for _, d := range w.dials {
+			if d.key == mb.key && d.res == "" {
+				d.doomed = true
+			}
+		}
+	}
+	return mb
 }
 
 func groupSquatServe(l net.Listener) {
@@ -288,15 +531,16 @@ func (w *groupWorld) doJoin(m, g, key string, p [4]string, manual bool) string {
 	}
 	switch w.kind {
 	case "tcp":
-		port := atoi(p[1])
-		if port != 0 {
-			port += w.base
+		port, okp := w.tcpPort(p[1])
+		if !okp {
+			return "noref"
 		}
 		ln, realPort, err := w.tcpCtl.Listen(m, g, key, p[0], port)
 		if err != nil {
 			return groupErrClass(err)
 		}
 		w.mu.Lock()
+		w.lastPort[m] = realPort
 		ek := "p?"
 		if ta, ok := ln.Addr().(*net.TCPAddr); ok {
 			ek = "p" + strconv.Itoa(ta.Port)
@@ -333,6 +577,21 @@ func (w *groupWorld) doJoin(m, g, key string, p [4]string, manual bool) string {
 	}
 }
 
+// tcp port token: 0 = server chooses, k = base+k, @<m> = the real port last reported to member m
+func (w *groupWorld) tcpPort(t string) (int, bool) {
+	if strings.HasPrefix(t, "@") {
+		w.mu.Lock()
+		defer w.mu.Unlock()
+		p, ok := w.lastPort[unhx(t[1:])]
+		return p, ok
+	}
+	port := atoi(t)
+	if port != 0 {
+		port += w.base
+	}
+	return port, true
+}
+
 func (w *groupWorld) busyName(m, g string) bool {
 	w.mu.Lock()
 	defer w.mu.Unlock()
@@ -360,7 +619,7 @@ func groupParams(tok []string) (m, g, key string, p [4]string, grab bool, manual
 }
 
 func (w *groupWorld) armGrab(m string, p [4]string, grab bool) {
-	if grab && w.kind == "tcp" && atoi(p[1]) != 0 {
+	if grab && w.kind == "tcp" && !strings.HasPrefix(p[1], "@") && atoi(p[1]) != 0 {
 		w.mu.Lock()
 		w.grab[m] = w.base + atoi(p[1])
 		w.mu.Unlock()
@@ -388,6 +647,13 @@ func groupReadTag(c net.Conn, br *bufio.Reader) string {
 }
 
 func (w *groupWorld) conn(a, b, c string) string {
+	if w.kind == "tcp" && strings.HasPrefix(a, "@") {
+		p, ok := w.tcpPort(a)
+		if !ok {
+			return "noref"
+		}
+		a = strconv.Itoa(p - w.base)
+	}
 	if w.kind != "http" {
 		w.mu.Lock()
 		busy := w.kind == "mux" && w.unresolved() > 0
@@ -908,21 +1174,26 @@ func groupExecOp(w *groupWorld, tok []string) string {
 			return "busy"
 		}
 		w.armGrab(m, p, grab)
-		pd := &groupPending{m: m, gate: make(chan struct{}), done: make(chan string, 1)}
+		pd := &groupPending{m: m, g: g, gate: make(chan struct{}), done: make(chan string, 1)}
 		w.mu.Lock()
 		w.pending[m] = pd
 		w.pendGrp[g] = m
 		w.armed[groupGateKey(w.kind, m, g, p[0])] = pd
 		w.mu.Unlock()
-		go func() { pd.done <- w.doJoin(m, g, key, p, manual && w.kind != "http") }()
-		select {
-		case <-w.parkedC:
+		pd.th = w.spawn("J"+m, pd, func() string {
+			r := w.doJoin(m, g, key, p, manual && w.kind != "http")
+			pd.done <- r
+			return r
+		})
+		switch w.waitSettled(pd.th) {
+		case "gate":
 			return "parked"
-		case r := <-pd.done:
-			return "notparked:" + r
-		case <-time.After(3 * time.Second):
-			return "timeout"
+		case "done":
+			return "notparked:" + pd.th.res
+		case "blocked":
+			return "waiting"
 		}
+		return "timeout"
 	case "enter":
 		m := unhx(tok[1])
 		w.mu.Lock()
@@ -937,44 +1208,100 @@ func groupExecOp(w *groupWorld, tok []string) string {
 		if pd == nil {
 			return "nopend"
 		}
-		close(pd.gate)
-		select {
-		case r := <-pd.done:
-			return r
-		case <-time.After(3 * time.Second):
-			return "timeout"
-		}
-	case "leave":
-		m := unhx(tok[1])
 		w.mu.Lock()
-		mb := w.members[m]
-		delete(w.members, m)
-		if mb != nil && w.kind != "http" && len(w.membersAt(mb.key)) == 0 {
-			// the endpoint has no live member left: whatever is still waiting there must be closed by frps
-			for _, d := range w.dials {
-				if d.key == mb.key && d.res == "" {
-					d.doomed = true
-				}
+		others := len(w.pending)
+		w.mu.Unlock()
+		if w.hold != nil || others > 0 {
+			// the join may be queued behind a leave that the hold keeps waiting (or behind another parked join):
+			// not a wedge of frps
+			w.mu.Lock()
+			w.pending[m] = pd
+			w.pendGrp[pd.g] = m
+			w.mu.Unlock()
+			return "premature"
+		}
+		pd.open.Store(true)
+		close(pd.gate)
+		if pd.th == nil {
+			select {
+			case r := <-pd.done:
+				return r
+			case <-time.After(3 * time.Second):
+				return "timeout"
 			}
 		}
-		w.mu.Unlock()
+		if w.waitSettled(pd.th) == "done" {
+			return pd.th.res
+		}
+		return "wedged"
+	case "leave":
+		mb := w.bookLeave(unhx(tok[1]))
 		if mb == nil {
 			return "nomember"
 		}
-		if w.kind == "http" {
-			w.httpCtl.UnRegister(mb.name, mb.g, mb.route)
-		} else {
-			mb.ln.Close()
-			// "live" ends when Close has returned AND the proxy's accept loop has seen it
-			if mb.done != nil {
-				select {
-				case <-mb.done:
-				case <-time.After(2 * time.Second):
-					return "loopalive"
-				}
-			}
+		return w.realLeave(mb)
+	case "hold":
+		if w.hold != nil {
+			return "busy"
 		}
+		l, why := w.groupLock(unhx(tok[1]))
+		if l == nil {
+			return why
+		}
+		if !l.TryLock() {
+			return "busy"
+		}
+		w.hold = l
+		return "held"
+	case "unhold":
+		if w.hold == nil {
+			return "noop"
+		}
+		w.hold.Unlock()
+		w.hold = nil
+		w.waitSettled(nil)
 		return "-"
+	case "leaveA":
+		m := unhx(tok[1])
+		w.mu.Lock()
+		_, dup := w.threads["L"+m]
+		w.mu.Unlock()
+		if dup {
+			return "dup"
+		}
+		mb := w.bookLeave(m)
+		if mb == nil {
+			return "nomember"
+		}
+		t := w.spawn("L"+m, nil, func() string { return w.realLeave(mb) })
+		switch w.waitSettled(t) {
+		case "done":
+			w.mu.Lock()
+			delete(w.threads, "L"+m)
+			w.mu.Unlock()
+			return t.res
+		case "blocked":
+			return "waiting"
+		}
+		return "unsettled"
+	case "leaveW":
+		m := unhx(tok[1])
+		w.mu.Lock()
+		t := w.threads["L"+m]
+		w.mu.Unlock()
+		if t == nil {
+			return "noasync"
+		}
+		if !t.finished() && w.obstructed() {
+			return "premature"
+		}
+		if w.waitSettled(t) == "done" {
+			w.mu.Lock()
+			delete(w.threads, "L"+m)
+			w.mu.Unlock()
+			return t.res
+		}
+		return "wedged"
 	case "resume":
 		m := unhx(tok[1])
 		w.mu.Lock()
@@ -1069,7 +1396,11 @@ func groupChildMain() {
 		if line == "" {
 			continue
 		}
-		fmt.Println(groupExec(strings.Fields(line))) // no recover: a panic ends the process
+		r := groupExec(strings.Fields(line)) // no recover: a panic ends the process
+		fmt.Println(r)
+		if strings.HasPrefix(r, "wedged") {
+			os.Exit(0) // nothing this process does can finish that op any more: the parent starts a fresh child
+		}
 	}
 	os.Exit(0)
 }
@@ -1179,10 +1510,11 @@ func groupWitness(kind string) []string {
 	c := map[string]string{"tcp": "conn,3,x,x", "http": "conn," + hx("a.com") + "," + hx("/a") + "," + hx(""),
 		"mux": "conn," + hx("a.com") + "," + hx("") + "," + hx("")}[kind]
 	return []string{
-		// lookup(m2,g) · leave(m1) · enter(m2) · leave(m2)
-		strings.Join([]string{j("join", "m1"), j("lookup", "m2"), "leave," + hx("m1"), "enter," + hx("m2"), "leave," + hx("m2")}, ";"),
+		// lookup(m2,g) · leave(m1) · enter(m2) · leave(m2)   (the leave is started while the join is parked; where the
+		// join holds the controller lock it can only finish after `enter`)
+		strings.Join([]string{j("join", "m1"), j("lookup", "m2"), "leaveA," + hx("m1"), "enter," + hx("m2"), "leaveW," + hx("m1"), "leave," + hx("m2")}, ";"),
 		// same with a user connection to the revived group, and a third member looking for the group
-		strings.Join([]string{j("join", "m1"), j("lookup", "m2"), "leave," + hx("m1"), "enter," + hx("m2"), c, c, j("join", "m3"), "view", "leave," + hx("m2"), c, j("join", "m4"), c}, ";"),
+		strings.Join([]string{j("join", "m1"), j("lookup", "m2"), "leaveA," + hx("m1"), "enter," + hx("m2"), "leaveW," + hx("m1"), c, c, j("join", "m3"), "view", "leave," + hx("m2"), c, j("join", "m4"), c}, ";"),
 		// harmless orders
 		strings.Join([]string{j("join", "m1"), j("lookup", "m2"), "enter," + hx("m2"), "leave," + hx("m1"), c, "leave," + hx("m2"), c, j("join", "m3"), c}, ";"),
 	}
@@ -1204,27 +1536,56 @@ func groupGen(rng *rand.Rand, n int, emit func(string)) {
 		k := kinds[i%3]
 		ops := []string{}
 		pend := ""
+		var async []string // leaves started while the join is parked: collected after its `enter`
+		enter := func() {
+			ops = append(ops, "enter,"+hx(pend))
+			pend = ""
+			for _, m := range async {
+				ops = append(ops, "leaveW,"+hx(m))
+			}
+			async = nil
+		}
 		for j := 0; j < 6+rng.Intn(8); j++ {
 			m := pick(rng, groupNames[:3])
 			switch r := rng.Intn(10); {
-			case r < 2:
+			case r < 2 && pend == "":
 				ops = append(ops, strings.ReplaceAll(groupGenJoinFixed(rng, k, "join", m), " ", ","))
 			case r < 4 && pend == "":
 				ops = append(ops, strings.ReplaceAll(groupGenJoinFixed(rng, k, "lookup", m), " ", ","))
 				pend = m
 			case r < 6 && pend != "":
-				ops = append(ops, "enter,"+hx(pend))
-				pend = ""
-			case r < 8:
+				enter()
+			case r < 8 && pend == "":
 				ops = append(ops, "leave,"+hx(m))
+			case r < 8:
+				dup := false
+				for _, a := range async {
+					dup = dup || a == m
+				}
+				if !dup {
+					ops = append(ops, "leaveA,"+hx(m))
+					async = append(async, m)
+				}
+			case len(async) > 0:
+				// a member whose leave is under way has closed its listener but is still listed: what a connection
+				// arriving now does is decided only when the leave ends — not asked here
+				ops = append(ops, "view")
 			default:
 				ops = append(ops, strings.ReplaceAll(groupGenConn(rng, k), " ", ","))
 			}
 		}
 		if pend != "" {
-			ops = append(ops, "enter,"+hx(pend))
+			enter()
 		}
 		e("sched " + k + " " + strings.Join(ops, ";"))
+	}
+	// 2b. join × leave overlaps with BOTH sides scheduled in sections (about 3 % of the budget): the join is
+	// parked between lookup and group section, the leaves are started while it is parked — or the leaves are
+	// paused between table lookup and group edit (hold) and the join is started then; one / some / all members
+	// leave, the joiner is right or a near miss; afterwards the group is probed: a correct join, connections,
+	// the ports / routes held, everybody leaves, ports / routes again, immediate re-creation
+	for i := 0; i < n/30; i++ {
+		e(groupGenOverlap(rng, kinds[i%3]))
 	}
 	// 3. sequential histories on the in-process controllers
 	for emitted < n {
@@ -1286,9 +1647,129 @@ func groupGen(rng *rand.Rand, n int, emit func(string)) {
 			case r < 19:
 				e(groupGenSquat(rng, k, "unsquat"))
 			default:
-				e("view")
+				if k == "tcp" && rng.Intn(2) == 0 {
+					groupGenPin(rng, e)
+				} else {
+					e("view")
+				}
 			}
 		}
+	}
+}
+
+// a schedule in which one join and one or more leaves of the same group overlap, both sides in sections
+func groupGenOverlap(rng *rand.Rand, kind string) string {
+	var ops []string
+	add := func(s string) { ops = append(ops, strings.ReplaceAll(s, " ", ",")) }
+	right := func(op, m string) string {
+		p := groupGenParams(rng, kind, "g1", 0)
+		return fmt.Sprintf("%s %s %s %s %s %s %s %s 0", op, hx(m), hx("g1"), hx("k"), p[0], p[1], p[2], p[3])
+	}
+	fresh := 0
+	next := func() string { fresh++; return fmt.Sprintf("m%d", fresh) }
+	var cur []string
+	for i := 0; i < 1+rng.Intn(2); i++ {
+		m := next()
+		add(right("join", m))
+		cur = append(cur, m)
+	}
+	for round := 0; round < 1+rng.Intn(2); round++ {
+		// who leaves: all (the last leave) half of the time, else a random non-empty subset
+		rng.Shuffle(len(cur), func(i, j int) { cur[i], cur[j] = cur[j], cur[i] })
+		nl := len(cur)
+		if rng.Intn(2) == 0 && len(cur) > 0 {
+			nl = 1 + rng.Intn(len(cur))
+		}
+		leavers, stay := cur[:nl], cur[nl:]
+		j := next()
+		jl := groupGenJoinFixed(rng, kind, "lookup", j)
+		if rng.Intn(3) > 0 {
+			jl = right("lookup", j)
+		}
+		if rng.Intn(2) == 0 {
+			// the join first: parked between lookup and group section; the leaves arrive meanwhile
+			add(jl)
+			for _, m := range leavers {
+				add("leaveA " + hx(m))
+			}
+			add("enter " + hx(j))
+		} else {
+			// the leaves first: paused between table lookup and group edit; the join arrives meanwhile
+			add("hold " + hx("g1"))
+			for _, m := range leavers {
+				add("leaveA " + hx(m))
+			}
+			add(jl)
+			add("unhold")
+			add("enter " + hx(j))
+		}
+		for _, m := range leavers {
+			add("leaveW " + hx(m))
+		}
+		cur = append(append([]string{}, stay...), j)
+		// probe: a correct join must be accepted, a connection delivered to a live member
+		if rng.Intn(3) > 0 {
+			m := next()
+			add(right("join", m))
+			cur = append(cur, m)
+		}
+		add(groupGenConn(rng, kind))
+		if rng.Intn(2) == 0 {
+			add("view")
+		}
+	}
+	// everybody leaves: the endpoint goes; then it is created again at once
+	p := groupGenParams(rng, kind, "g1", 0)
+	c := map[string]string{"tcp": "conn " + p[1] + " x x", "http": "conn " + p[0] + " " + p[1] + " " + p[2],
+		"mux": "conn " + p[0] + " " + p[1] + " " + p[3]}[kind]
+	add(c)
+	for _, m := range cur {
+		add("leave " + hx(m))
+	}
+	add("view")
+	add(c)
+	add(right("join", next()))
+	add(c)
+	if rng.Intn(2) == 0 {
+		add("view")
+	}
+	return "sched " + kind + " " + strings.Join(ops, ";")
+}
+
+// tcp, server-chosen port: a group is created with remotePort = 0 (possibly joined by a second member, which
+// must get the same port), dissolves, and the REAL port it had is asked for explicitly (`@m`): the port manager's
+// used set must not keep it (view), the explicit acquisition must succeed and connections must arrive
+func groupGenPin(rng *rand.Rand, e func(string)) {
+	groupFresh++
+	g := fmt.Sprintf("gp%d", groupFresh)
+	var ms []string
+	for i := 0; i < 1+rng.Intn(2); i++ {
+		groupFresh++
+		m := fmt.Sprintf("z%d", groupFresh)
+		ms = append(ms, m)
+		e(fmt.Sprintf("join %s %s %s %s 0 x x 0", hx(m), hx(g), hx("k"), hx("127.0.0.1")))
+	}
+	e("conn @" + hx(ms[0]) + " x x")
+	if rng.Intn(2) == 0 {
+		e("view")
+	}
+	rng.Shuffle(len(ms), func(i, j int) { ms[i], ms[j] = ms[j], ms[i] })
+	for _, m := range ms {
+		e("leave " + hx(m))
+	}
+	e("view")
+	e("conn @" + hx(ms[0]) + " x x")
+	groupFresh++
+	m := fmt.Sprintf("z%d", groupFresh)
+	g2 := g
+	if rng.Intn(2) == 0 {
+		g2 = g + "b" // the same group again, or another group that wants exactly that port
+	}
+	e(fmt.Sprintf("join %s %s %s %s @%s x x 0", hx(m), hx(g2), hx("k"), hx("127.0.0.1"), hx(ms[0])))
+	e("conn @" + hx(ms[0]) + " x x")
+	e("leave " + hx(m))
+	if rng.Intn(2) == 0 {
+		e("view")
 	}
 }
 
